@@ -38,3 +38,12 @@ Theorem c11_order_v4 : forall max manual h s L, 1 <= max -> max <= 65535 ->
   Client.Order4.orun (init max manual) [] h = Some (s, L) ->
   exists s', clean s = Ok (s', map RPublish L ++ parked s).
 Proof. exact Client.Order4.clean_in_send_order. Qed.
+
+(* repeated failures: each Resume = clean() + exact replay of what it returned (ids kept) through
+   handle_outgoing_packet; a replayed publish keeps its place.  Not covered by a theorem: a failure
+   in the MIDDLE of a replay (the event loop keeps the unreplayed rest in pending) — that is checked
+   on the real loop by the end-to-end order monitor only. *)
+Theorem c11_order_repeated : forall max manual segs s L, 1 <= max -> max <= 65535 ->
+  Client.Order4.srun (init max manual) [] segs = Some (s, L) ->
+  exists s', clean s = Ok (s', map RPublish L ++ parked s).
+Proof. exact Client.Order4.clean_in_send_order_repeated. Qed.
